@@ -52,7 +52,7 @@ def sympar_choice(draw, sp):
 
 @st.composite
 def cases(draw):
-    sp = draw(gen_nets.specs())
+    sp = draw(gen_nets.merge_stars()) if draw(st.integers(0, 11)) == 0 else draw(gen_nets.specs(big=10))
     states = [draw(gen_nets.states(sp)) for _ in range(2)]
     opts = draw(st.one_of(st.just([]), st.lists(st.sampled_from(S.OPT_NAMES), unique=True, max_size=6).map(sorted)))
     sympars = draw(st.one_of(st.none(), sympar_choice(sp)))
